@@ -1,6 +1,8 @@
 """Module-level (importable, picklable) harness task types."""
 from typing import Any
 
+import os
+
 import labtech
 
 from .body import run_body
@@ -305,6 +307,19 @@ class Perm(IntFlag):
     W = 2
 
 
+class Train:
+    """Enum classes nested in other classes: two of them share the short name Mode within this module."""
+    class Mode(Enum):
+        FAST = 1
+        SLOW = 2
+
+
+class Evaluate:
+    class Mode(Enum):
+        FAST = 1
+        FULL = 'full'
+
+
 class SubFloat(float):
     """A scalar whose type is a subclass of a supported scalar type (the stand-in for numpy.float64)."""
 
@@ -323,6 +338,22 @@ def _val_run(self):
     if os.environ.get('VLAB_CTL'):
         emit('vstart', key=self.cache_key, type=type(self).__name__)
     return ('val', type(self).__module__, type(self).__qualname__, self.cache_key)
+
+
+@labtech.task
+class VT:
+    """C01 'twins': the value is the harness's own typed identity of the task's parameters, so a task that is handed
+    another task's result (two near-identical tasks confused anywhere between planning, caching and loading) shows."""
+    p: Any = None
+    q: Any = None
+
+    def run(self):
+        import json
+        from .events import emit
+        from .valgen import obj_ident
+        if os.environ.get('VLAB_CTL'):
+            emit('vstart', key=self.cache_key, type='VT')
+        return ('twin', json.dumps(obj_ident(self)))
 
 
 @labtech.task
